@@ -78,8 +78,8 @@ theorem reopen_inv3 (db : DB) (h : Inv3 db) (opts : Opts) (hs : SizeOK db)
   unfold vals
   rw [sabs]
 
-def browseGM (w : List (Key × Nat)) (k : Key) (vf : Bytes × Nat) : Bytes × Nat :=
-  if hasFlag vf.2 NO_BROWSE = true then vf else (vf.1, applyBrowsingFlags vf.2 (walkRes w k))
+def browseGM (w : List (Key × Nat)) (vs : Option (List Key)) (k : Key) (vf : Bytes × Nat) : Bytes × Nat :=
+  if skipB false vs vf.2 k = true then vf else (vf.1, applyBrowsingFlags vf.2 (walkRes w k))
 
 theorem mget_mstep (m : M) (hnd : (Keys m).Nodup) (op : Op) (hr : ∀ a b c, op ≠ .reopen a b c) (j : Key) :
     mget (mstep m op) j = vstep (mget m) op j := by
@@ -106,16 +106,17 @@ theorem mget_mstep (m : M) (hnd : (Keys m).Nodup) (op : Op) (hr : ∀ a b c, op 
       · simp [hk]
   | browse w =>
     simp only [mstep, vstep, mbrowseState]
+    generalize mvisitSet false m w = vs
     have : (m.map fun (x : Key × (Bytes × Nat)) =>
         match x with
-        | (k, v, f) => if hasFlag f NO_BROWSE = true then (k, v, f) else (k, v, applyBrowsingFlags f (walkRes w k))) =
-        m.map fun kr => (kr.1, browseGM w kr.1 kr.2) := by
+        | (k, v, f) => if skipB false vs f k = true then (k, v, f) else (k, v, applyBrowsingFlags f (walkRes w k))) =
+        m.map fun kr => (kr.1, browseGM w vs kr.1 kr.2) := by
       apply List.map_congr_left
       intro x _
       obtain ⟨k, v, f⟩ := x
       simp only [browseGM]
       split <;> rfl
-    rw [this, ilookup_mapKV (browseGM w) j m]
+    rw [this, ilookup_mapKV (browseGM w vs) j m]
     cases ilookup j m with
     | none => rfl
     | some vf =>
@@ -316,9 +317,10 @@ theorem mrun_vals (ops : List Op) (m : M) (hnd : (Keys m).Nodup) :
         | some vf => exact nodup_iset k _ m hnd
       | browse w =>
         simp only [mstep, mbrowseState]
+        generalize mvisitSet false m w = vs
         have : Keys (m.map fun (x : Key × (Bytes × Nat)) =>
             match x with
-            | (k, v, f) => if hasFlag f NO_BROWSE = true then (k, v, f) else (k, v, applyBrowsingFlags f (walkRes w k)))
+            | (k, v, f) => if skipB false vs f k = true then (k, v, f) else (k, v, applyBrowsingFlags f (walkRes w k)))
             = Keys m := by
           unfold Keys
           rw [List.map_map]
